@@ -68,3 +68,25 @@ class ScriptedGen:
                 self.sc.add(op, l, kind=kind, **meta)
         self.fails = g.fails
         return self.sc
+
+
+def known_failed_commit_dedup(f, sc):
+    """C09-K1: the failing observation follows a commit/upgrade that failed after `dedup_head` on a staged
+    version that held duplicate new content"""
+    if sc is None:
+        return None
+    steps = sc.steps if hasattr(sc, "steps") else sc
+    idx = f[0] if isinstance(f[0], int) else len(steps)
+    failed_after_dedup = set()
+    for st in steps[: idx + 1]:
+        t = st["h"].split(" ")
+        r = st.get("hres", "")
+        if t[0] in ("commit", "upgrade") and (r.startswith("err:illegalState") or r.startswith("err:notFound")):
+            failed_after_dedup.add(t[1])
+    if not failed_after_dedup:
+        return None
+    cur = steps[min(idx, len(steps) - 1)]["h"].split(" ")
+    same_object = len(cur) > 1 and cur[1] in failed_after_dedup
+    if same_object and ("not found in manifest" in f[2] or "not readable" in f[2] or "can no longer be opened" in f[2]):
+        return "C09-K1"
+    return None
